@@ -16,6 +16,16 @@ pub open spec fn same_but_coins<C: ContentAddrStore>(a: UnsealedState<C>, b: Uns
 pub broadcast axiom fn axiom_marker_not_output(h: TxHash, tx: Transaction) ensures #[trigger] spec_fdp_hash(h) != (#[trigger] spec_txhash(tx)).0;
 /// A-HASH (preimage resistance for the all-zero constant): no transaction's signature-free hash is the zero hash (the genesis coin's id)
 pub broadcast axiom fn axiom_txhash_nonzero(tx: Transaction) ensures (#[trigger] spec_txhash(tx)).0 != spec_zero_hash();
+/// A-HASH domain separation: the proposer-reward pseudo-id of a height is never the id of a transaction output
+pub broadcast axiom fn axiom_reward_not_output(h: BlockHeight, tx: Transaction) ensures #[trigger] spec_reward_hash(h) != (#[trigger] spec_txhash(tx)).0;
+pub proof fn lemma_origin_reward(c: IMap<CoinID, CoinDataHeight>, h: BlockHeight, d: CoinDataHeight)
+    requires origin_ok(c) ensures origin_ok(c.insert(spec_proposer_reward(h), d))
+{
+    broadcast use axiom_reward_not_output;
+    let c2 = c.insert(spec_proposer_reward(h), d);
+    assert forall|tx2: Transaction, i2: int| 0 <= i2 < tx2.outputs@.len() && i2 <= 255 && c2.contains_key(#[trigger] cid(tx2, i2))
+        implies c2[cid(tx2, i2)].coin_data.covhash == tx2.outputs@[i2].covhash by { assert(cid(tx2, i2) != spec_proposer_reward(h)); }
+}
 pub broadcast axiom fn axiom_marker_inj(a: TxHash, b: TxHash) requires #[trigger] spec_fdp_hash(a) == #[trigger] spec_fdp_hash(b) ensures a == b;
 
 // ---- exact coin-set transition of a batch (C02)
